@@ -84,14 +84,18 @@ Definition iobs_eqb (a b : iobs_t) : bool :=
   let '(ok, i, v1, v2) := a in let '(ok', i', v1', v2') := b in
   Bool.eqb ok ok' && Z.eqb i i' && option_eqb oeqA v1 v1' && oeqA v2 v2'.
 Record iobsr := mkIO { io_op : irop; io_obs : list iobs_t }.
-Definition icase := list iobsr.
-Fixpoint icheck_from (w : @iworld float) (l : list iobsr) : bool :=
+(* i_int: the receiver of the case's joint iterators is a DENSE MATRIX of an INTEGER element type.  Its Ok() is computed from
+   the fields as coded,  !(s1 == nil || s1.GetInt8() == 0) || !(s2 == nil || s2.GetInt8() == 0) : the second operand's
+   element is read CONVERTED to the receiver's element type, so an element with |x| < 1 counts as zero there. *)
+Record icase := mkIC { i_int : bool; i_steps : list iobsr }.
+Definition isnullI (x : float) : bool := PrimFloat.ltb (PrimFloat.abs x) 1%float.
+Fixpoint icheck_from (nul : float -> bool) (w : @iworld float) (l : list iobsr) : bool :=
   match l with
   | [] => true
   | o :: r =>
       let w' := istep 0%float w (to_iop (io_op o)) in
-      list_eqb iobs_eqb (map (fun k => iobs 0%float isnullF w' k) (seq 0 (length (snd w')))) (io_obs o)
-      && icheck_from w' r
+      list_eqb iobs_eqb (map (fun k => iobs 0%float nul w' k) (seq 0 (length (snd w')))) (io_obs o)
+      && icheck_from nul w' r
   end.
-Definition icheck (c : icase) : bool := icheck_from ([], []) c.
+Definition icheck (c : icase) : bool := icheck_from (if i_int c then isnullI else isnullF) ([], []) (i_steps c).
 Definition imism (cs : list icase) : list nat := mismatches icheck cs.
